@@ -47,7 +47,7 @@ def parse_mir(text):
                 name = mm.group(1)
                 params = re.findall(r"(_\d+): ", mm.group(2))
             else:
-                mm = re.match(r"^const (.+): \w+ = \{$", ln)
+                mm = re.match(r"^const (.*::\w+(?:::\{constant#\d+\})?): ([^:]+) = \{$", ln)
                 if not mm:
                     i += 1
                     continue
@@ -115,6 +115,8 @@ class Ctx:
         self.fresh = 0
         self.decls = []  # (name, sort)
         self.symbols = {}  # const path -> var name
+        self.tymap = []  # stack of {callee type parameter: caller type}
+        self.depth = 0
 
     def new(self, base, sort="Int"):
         self.fresh += 1
@@ -122,8 +124,19 @@ class Ctx:
         self.decls.append((n, sort))
         return n
 
+    def norm(self, path):
+        """canonical spelling of an associated-constant path: module prefixes dropped
+        (`flatty::traits::FlatBase` == `traits::FlatBase` == `FlatBase`), current
+        type-parameter renaming applied (callee's `T` is the caller's `C`, ...)."""
+        q = re.sub(r"\b(?:[a-z_][a-z0-9_]*::)+(?=[A-Z])", "", path)
+        if self.tymap:
+            m = self.tymap[-1]
+            q = re.sub(r"<(\w+) as ", lambda mm: "<%s as " % m.get(mm.group(1), mm.group(1)), q)
+        return q
+
     def sym(self, path):
         """free variable for an unevaluated associated constant"""
+        path = self.norm(path)
         if path not in self.symbols:
             n = re.sub(r"[^A-Za-z0-9_.]", "_", path)
             self.symbols[path] = n
@@ -160,30 +173,74 @@ def find_func(ctx, pattern, want_const=None):
     return c[0]  # const fns appear twice (runtime + const-eval MIR): identical bodies
 
 
-# associated-constant paths that are defined by MIR const items in the dumps: resolved by
-# executing that item; everything else is a free variable
-CONST_ITEMS = [
-    (r"<vec::FlatVec<T, L> as vec::DataOffset<T, L>>::DATA_OFFSET", r"^vec::DataOffset::DATA_OFFSET$"),
-    (r"<vec::FlatVec<T, L> as flatty_base::traits::FlatBase>::ALIGN", r"^vec::<impl at containers/src/vec\.rs:\d+:1: \d+:\d+>::ALIGN$"),
-    (r"<vec::FlatVec<T, L> as flatty_base::traits::FlatBase>::MIN_SIZE", r"^vec::<impl at containers/src/vec\.rs:\d+:1: \d+:\d+>::MIN_SIZE$"),
-    (r"<string::FlatString<L> as string::DataOffset<L>>::DATA_OFFSET", r"^string::DataOffset::DATA_OFFSET$"),
-    (r"<string::FlatString<L> as flatty_base::traits::FlatBase>::ALIGN", r"^string::<impl at containers/src/string\.rs:\d+:1: \d+:\d+>::ALIGN$"),
-    (r"<flex::FlexVec<T, L> as flatty_base::traits::FlatBase>::ALIGN", r"^flex::<impl at containers/src/flex\.rs:\d+:1: \d+:\d+>::ALIGN$"),
-    (r"flex::FlexVec::<T, L>::OFFSET_SIZE", r"^flex::<impl at containers/src/flex\.rs:\d+:1: \d+:\d+>::OFFSET_SIZE$"),
-]
+PRIM = {"u8": 1, "i8": 1, "u16": 2, "i16": 2, "u32": 4, "i32": 4, "u64": 8, "i64": 8, "usize": 8, "isize": 8, "u128": 16, "i128": 16, "()": 0}
 
-INLINE = {
-    "ceil_mul": r"^ceil_mul$",
-    "floor_mul": r"^floor_mul$",
-    "utils::max": r"^utils::max$",
-    "utils::min": r"^utils::min$",
-    "max": r"^utils::max$",
-    "min": r"^utils::min$",
-    "flatty_base::utils::max": r"^utils::max$",
-    "flatty_base::utils::min": r"^utils::min$",
-    "flatty_base::utils::ceil_mul": r"^ceil_mul$",
-    "flatty_base::utils::floor_mul": r"^floor_mul$",
+
+def split_generics(s):
+    """'FlatVec<C, L>' -> ('FlatVec', ['C', 'L'])"""
+    m = re.match(r"^([\w:]+?)(?:::)?<(.*)>$", s.strip())
+    if not m:
+        return s.strip(), []
+    return m.group(1), split_args(m.group(2))
+
+
+def impl_span_of(ctx, tyname):
+    """macro-generated impls are named by source span only; the `size(&Self)` method's
+    signature ties the span to the type name."""
+    for f in ctx.funcs:
+        m = re.match(r"^fn (<impl at [^>]+>)::size\(_1: &%s<" % re.escape(tyname), f.header)
+        if m:
+            return m.group(1)
+    return None
+
+
+CONTAINER_ITEMS = {
+    ("FlatVec", "DATA_OFFSET"): r"^vec::DataOffset::DATA_OFFSET$",
+    ("FlatVec", "ALIGN"): r"^vec::<impl at containers/src/vec\.rs:\d+:1: \d+:\d+>::ALIGN$",
+    ("FlatVec", "MIN_SIZE"): r"^vec::<impl at containers/src/vec\.rs:\d+:1: \d+:\d+>::MIN_SIZE$",
+    ("FlatString", "DATA_OFFSET"): r"^string::DataOffset::DATA_OFFSET$",
+    ("FlatString", "ALIGN"): r"^string::<impl at containers/src/string\.rs:\d+:1: \d+:\d+>::ALIGN$",
+    ("FlatString", "MIN_SIZE"): r"^string::<impl at containers/src/string\.rs:\d+:1: \d+:\d+>::MIN_SIZE$",
+    ("FlexVec", "ALIGN"): r"^flex::<impl at containers/src/flex\.rs:\d+:1: \d+:\d+>::ALIGN$",
+    ("FlexVec", "MIN_SIZE"): r"^flex::<impl at containers/src/flex\.rs:\d+:1: \d+:\d+>::MIN_SIZE$",
+    ("FlexVec", "OFFSET_SIZE"): r"^flex::<impl at containers/src/flex\.rs:\d+:1: \d+:\d+>::OFFSET_SIZE$",
 }
+CONTAINER_PARAMS = {"FlatVec": ["T", "L"], "FlatString": ["L"], "FlexVec": ["T", "L"]}
+
+
+def exec_const_item(ctx, f, p, tymap=None):
+    """value of a constant item; memoised per (item, type arguments): its obligations are
+    generated once, later uses only re-assert the defining constraints."""
+    cur0 = ctx.tymap[-1] if ctx.tymap else {}
+    key = (f.name, tuple(sorted((k, cur0.get(v, v)) for k, v in (tymap or {}).items())), tuple(sorted(cur0.items())))
+    cache = ctx.__dict__.setdefault("const_cache", {})
+    if key in cache:
+        ret, extra = cache[key]
+        for a in extra:
+            if a not in p.assume:
+                p.assume.append(a)
+        return ret
+    n0 = len(p.assume)
+    ret = _exec_const_item(ctx, f, p, tymap)
+    cache[key] = (ret, list(p.assume[n0:]))
+    return ret
+
+
+def _exec_const_item(ctx, f, p, tymap=None):
+    if tymap is not None:
+        cur = ctx.tymap[-1] if ctx.tymap else {}
+        ctx.tymap.append({k: cur.get(v, v) for k, v in tymap.items()})
+    try:
+        paths = execute(ctx, f, [], p)
+    finally:
+        if tymap is not None:
+            ctx.tymap.pop()
+    if len(paths) != 1:
+        return merge_returns(paths, p)
+    q, ret = paths[0]
+    p.assume[:] = q.assume
+    p.oblig[:] = q.oblig
+    return ret
 
 
 def const_value(ctx, path_expr, p):
@@ -193,22 +250,76 @@ def const_value(ctx, path_expr, p):
         return I(str(int(m.group(1))))
     if path_expr in ("true", "false"):
         return I(path_expr, True)
-    if path_expr == "core::num::<impl usize>::MAX":
+    if path_expr in ("core::num::<impl usize>::MAX", "usize::MAX"):
         return I(str(U64 - 1))
-    for pat, item in CONST_ITEMS:
-        if path_expr == pat:
-            f = find_func(ctx, item, want_const=True)
-            paths = execute(ctx, f, [], p)
-            if len(paths) != 1:
-                # a branching const body (max): merge with ite
-                return merge_returns(paths, p)
-            q, ret = paths[0]
-            p.assume[:] = q.assume
-            p.oblig[:] = q.oblig
-            return ret
+    if path_expr in ("isize::MIN", "core::num::<impl isize>::MIN"):
+        return I(str(-(2 ** 63)))
+    q = re.sub(r"\b(?:[a-z_][a-z0-9_]*::)+(?=[A-Z])", "", path_expr)
+    # <TYPE as TRAIT>::NAME
+    m = re.match(r"^<(.+) as (\w+)(?:<.*>)?>::(\w+)$", q)
+    if m:
+        ty, trait, name = m.group(1).strip(), m.group(2), m.group(3)
+        if ty in PRIM and name in ("SIZE", "ALIGN", "MIN_SIZE"):
+            return I(str(PRIM[ty]))
+        base, args = split_generics(ty)
+        if base in CONTAINER_PARAMS and (base, name) in CONTAINER_ITEMS:
+            f = find_func(ctx, CONTAINER_ITEMS[(base, name)], want_const=True)
+            return exec_const_item(ctx, f, p, dict(zip(CONTAINER_PARAMS[base], args)))
+        span = impl_span_of(ctx, base) if args else None
+        if span:
+            f = find_func(ctx, "^" + re.escape(span) + "::" + name + "$", want_const=True)
+            return exec_const_item(ctx, f, p)
+        return I(ctx.sym(path_expr))
+    # inherent constant of a macro-generated type: GS3::<A, B, C, L>::LAST_FIELD_OFFSET
+    m = re.match(r"^(\w+)::<(.*)>::(\w+)$", q)
+    if m:
+        base, name = m.group(1), m.group(3)
+        if base in CONTAINER_PARAMS and (base, name) in CONTAINER_ITEMS:
+            f = find_func(ctx, CONTAINER_ITEMS[(base, name)], want_const=True)
+            return exec_const_item(ctx, f, p, dict(zip(CONTAINER_PARAMS[base], split_args(m.group(2)))))
+        span = impl_span_of(ctx, base)
+        if span:
+            f = find_func(ctx, "^" + re.escape(span) + "::" + name + "$", want_const=True)
+            return exec_const_item(ctx, f, p)
     if path_expr.startswith("<") or "::" in path_expr:
         return I(ctx.sym(path_expr))
     raise Unsupported("const " + path_expr)
+
+
+def align_of_type(ctx, ty, p):
+    """alignment of a type appearing in a generated *AlignAs tuple struct (axioms: repr(C)
+    struct = max of its fields; `<X as FlatUnsized>::AlignAs` has X's alignment)."""
+    ty = re.sub(r"\b(?:[a-z_][a-z0-9_]*::)+(?=[A-Z<])", "", ty.strip())
+    if ty in PRIM:
+        return str(max(PRIM[ty], 1))
+    m = re.match(r"^<(.+) as FlatUnsized>::AlignAs$", ty)
+    if m:
+        return const_value(ctx, "<%s as FlatBase>::ALIGN" % m.group(1), p).t
+    base, args = split_generics(ty)
+    if base in ("FlatVecAlignAs", "FlexVecAlignAs"):
+        a = align_of_type(ctx, args[0] if base == "FlatVecAlignAs" else "<%s as FlatUnsized>::AlignAs" % args[0], p) if False else None
+        first = args[0]
+        ta = const_value(ctx, "<%s as FlatBase>::ALIGN" % first, p).t
+        la = const_value(ctx, "<%s as FlatBase>::ALIGN" % args[1], p).t
+        return "(ite (>= %s %s) %s %s)" % (ta, la, ta, la)
+    if base.endswith("AlignAs"):
+        return align_of_alignas(ctx, base, p)
+    if not args and re.match(r"^[A-Z]\w*$", ty):
+        return const_value(ctx, "<%s as FlatBase>::ALIGN" % ty, p).t
+    raise Unsupported("align_of " + ty)
+
+
+def align_of_alignas(ctx, name, p):
+    for f in ctx.funcs:
+        m = re.match(r"^fn %s\((.*)\) -> " % re.escape(name), f.header)
+        if m:
+            tys = [re.sub(r"^_\d+: ", "", x) for x in split_args(m.group(1))]
+            term = None
+            for t in tys:
+                a = align_of_type(ctx, t, p)
+                term = a if term is None else "(ite (>= %s %s) %s %s)" % (term, a, term, a)
+            return term
+    raise Unsupported("no constructor for " + name)
 
 
 def merge_returns(paths, p):
@@ -254,6 +365,13 @@ def read_place(ctx, p, place):
     m = re.match(r"^\(\*(.+)\)$", place)
     if m:
         return read_place(ctx, p, m.group(1))  # references are modelled as the value itself
+    m = re.match(r"^(_\d+)\[(_\d+)\]$", place)
+    if m:
+        arr = read_place(ctx, p, m.group(1))
+        idx = read_place(ctx, p, m.group(2))
+        if isinstance(arr, Tup) and isinstance(idx, I) and re.match(r"^\d+$", idx.t):
+            return arr.items[int(idx.t)]
+        raise Unsupported("symbolic array index: " + place)
     if re.match(r"^_\d+$", place):
         if place not in p.env:
             raise Unsupported("read of unset local " + place)
@@ -299,6 +417,13 @@ def rvalue(ctx, p, s):
     if m:
         a = operand(ctx, p, m.group(1))
         return I("(not %s)" % a.t, True)
+    m = re.match(r"^Neg\((.+)\)$", s)
+    if m:
+        a = operand(ctx, p, m.group(1))
+        return I("(- %s)" % a.t)
+    m = re.match(r"^\[(.*)\]$", s)
+    if m:
+        return Tup([operand(ctx, p, x) for x in split_args(m.group(1))])
     m = re.match(r"^(&raw (const|mut) |&mut |&)(.+)$", s)
     if m:
         return read_place(ctx, p, m.group(3))
@@ -307,8 +432,8 @@ def rvalue(ctx, p, s):
         v = operand(ctx, p, m.group(1))
         kind, ty = m.group(3), m.group(2)
         if kind == "PtrToPtr":
-            if isinstance(v, Fat) and "[" not in ty and "FlatVec" not in ty and "FlatString" not in ty and "FlexVec" not in ty:
-                return I(v.addr)  # wide -> thin
+            if isinstance(v, Fat) and re.match(r"^\*(mut|const) (u8|T|\(\))$", ty.strip()):
+                return I(v.addr)  # wide -> thin (pointer to a sized type)
             return v
         if kind == "IntToInt":
             return v  # only usize <-> isize of small values in these functions
@@ -323,6 +448,19 @@ def rvalue(ctx, p, s):
     return operand(ctx, p, s)
 
 
+INLINE = {
+    "ceil_mul": r"^ceil_mul$",
+    "floor_mul": r"^floor_mul$",
+    "max": r"^utils::max$",
+    "min": r"^utils::min$",
+}
+
+
+def _callee_key(base):
+    """last path segment(s) used to look a callee up: module prefixes are ignored"""
+    return re.sub(r"^(?:[a-z_][a-z0-9_]*::)+", "", base)
+
+
 AXIOM_NOTES = [
     "slice_ptr_len / NonNull::len: metadata of a wide pointer",
     "slice_from_raw_parts_mut(ptr, n): wide pointer (ptr, n)",
@@ -335,30 +473,71 @@ AXIOM_NOTES = [
 def call(ctx, p, callee, args):
     callee = callee.strip()
     base = re.sub(r"::<[^()]*>$", "", callee)
-    if base in INLINE:
-        f = find_func(ctx, INLINE[base])
+    key = _callee_key(base)
+    if key in INLINE:
+        f = find_func(ctx, INLINE[key])
         paths = execute(ctx, f, args, p)
-        return paths  # list of (path, ret)
-    if base in ("slice_ptr_len", "flatty_base::utils::mem::slice_ptr_len", "NonNull::<[T]>::len"):
+        if len(paths) > 1 and all(isinstance(r, I) for _, r in paths):
+            # a branching callee without side conditions (max / min): one value, the branch
+            # conditions become an if-then-else, so that callers do not multiply into 2^k paths
+            q = p.fork()
+            v = merge_returns(paths, q)
+            return [(q, v)]
+        return paths
+    if key in ("slice_ptr_len", "NonNull::<[u8]>::len", "NonNull::<[T]>::len") or re.match(r"^NonNull::<\[.*\]>::len$", key):
         a = args[0]
         if not isinstance(a, Fat):
             raise Unsupported("slice_ptr_len of thin pointer")
         return [(p, I(a.meta))]
-    if base in ("slice_from_raw_parts_mut", "core::ptr::slice_from_raw_parts_mut", "set_slice_ptr_len"):
+    if re.match(r"^NonNull::<.*>::new_unchecked$", key):
+        return [(p, args[0])]
+    if key in ("slice_from_raw_parts_mut", "set_slice_ptr_len"):
         a = args[0]
         addr = a.addr if isinstance(a, Fat) else a.t
         return [(p, Fat(addr, args[1].t))]
-    if base == "core::num::<impl usize>::checked_div":
+    if key == "offset_slice_ptr_start":
+        a, k = args
+        if not isinstance(a, Fat):
+            raise Unsupported("offset_slice_ptr_start of thin pointer")
+        # (len as isize - count) as usize wraps silently: the result must not be negative
+        newlen = "(- %s %s)" % (a.meta, k.t)
+        p.oblig.append(("offset_slice_ptr_start: the remaining length (len - count) is not negative", list(p.assume), "(>= %s 0)" % newlen))
+        p.assume.append("(>= %s 0)" % newlen)
+        return [(p, Fat("(+ %s %s)" % (a.addr, k.t), newlen))]
+    if re.search(r"::offset$", key) and len(args) == 2 and isinstance(args[0], I):
+        return [(p, I("(+ %s %s)" % (args[0].t, args[1].t)))]
+    if key == "align_of" or base.endswith("align_of"):
+        m = re.search(r"align_of::<(.+)>$", callee)
+        if not m:
+            raise Unsupported("align_of without type")
+        ty = m.group(1)
+        b, _ = split_generics(re.sub(r"\b(?:[a-z_][a-z0-9_]*::)+(?=[A-Z<])", "", ty))
+        return [(p, I(align_of_alignas(ctx, b, p) if b.endswith("AlignAs") else align_of_type(ctx, ty, p)))]
+    if re.search(r"checked_div$", key):
         a, b = args
         q = ctx.new("q")
         r = ctx.new("r")
         p.assume.append("(=> (> %s 0) (and (= %s (+ (* %s %s) %s)) (>= %s 0) (< %s %s) (>= %s 0)))" % (b.t, a.t, q, b.t, r, r, r, b.t, q))
         return [(p, Opt("(distinct %s 0)" % b.t, q))]
-    if base == "Option::<usize>::unwrap_or":
+    if re.search(r"Option::<usize>::unwrap_or$", key):
         o, d = args
         return [(p, I("(ite %s %s %s)" % (o.some, o.val, d.t)))]
     if re.search(r"as Deref>::deref$|as DerefMut>::deref_mut$", base):
         return [(p, args[0])]
+    # <FlatVec<C, L> as FlatUnsized>::ptr_from_bytes: the container's own MIR with T := C
+    m = re.match(r"^<(.+) as (?:\w+::)*FlatUnsized>::(ptr_from_bytes|ptr_to_bytes)$", base)
+    if m:
+        ty = re.sub(r"\b(?:[a-z_][a-z0-9_]*::)+(?=[A-Z])", "", m.group(1))
+        b, targs = split_generics(ty)
+        mod = {"FlatVec": "vec", "FlatString": "string", "FlexVec": "flex"}.get(b)
+        if mod:
+            f = find_func(ctx, r"^%s::<impl at containers/src/%s\.rs:\d+:1: \d+:\d+>::%s$" % (mod, mod, m.group(2)))
+            cur = ctx.tymap[-1] if ctx.tymap else {}
+            ctx.tymap.append({k: cur.get(v, v) for k, v in zip(CONTAINER_PARAMS[b], targs)})
+            try:
+                return execute(ctx, f, args, p)
+            finally:
+                ctx.tymap.pop()
     # uninterpreted: record the call, return a fresh value
     p.calls.append((callee, args))
     v = ctx.new("ret_" + re.sub(r"[^A-Za-z0-9]", "_", base)[-30:])
